@@ -16,9 +16,16 @@ def check(out, ctx):
     st = stream.get(ctx)
     cases = st["cases"]
     bad = common.correspondence(out, st, cases)
+    outside = 0
     for c in cases:
         key = "%s:%s:%s" % (c.g.gid, c.rule, c.inp.encode().hex())
-        if c.impl["k"] not in ("OK", "ERR"):
+        if c.impl["k"] in ("TIMEOUT", "CRASH") and (c.model or {}).get("k") == "FUEL" and \
+                getattr(c.g, "wf", None) is not True and getattr(c.g, "wf_lr", None) is not True:
+            # a grammar outside the quantifier (not certified well-formed) on which the model does not return
+            # either: the documented non-termination of a closure over a body that can match nothing, or of
+            # unmarked left recursion (stack exhaustion); neither a panic nor an access outside the input
+            outside += 1
+        elif c.impl["k"] not in ("OK", "ERR"):
             out.violation("c04panic:" + key, "parser did not return Ok/Err on %r: %s" % (c.inp, c.impl), common.case_payload(c, st))
         elif c.impl["k"] == "ERR":
             b = c.inp.encode("utf-8")
@@ -28,4 +35,5 @@ def check(out, ctx):
     common.stream_coverage(out, st, cases,
                            "whole stream, hook on; non-trivial = input contains a multi-byte character; distinct by (grammar, rule, input)",
                            lambda c: any(ord(ch) > 127 for ch in c.inp),
-                           {"model_vs_implementation_disagreements": bad, **tinfo})
+                           {"model_vs_implementation_disagreements": bad,
+                            "cases_of_uncertified_grammars_where_parser_and_model_both_do_not_return": outside, **tinfo})
